@@ -66,6 +66,19 @@ def run(pid, mod, tier, seed):
         nontriv = set()
         for spec in mod.suites(rng, tier):
             suite, lines = spec["suite"], spec["lines"]
+            if spec.get("model_only"):
+                # a statistic computed by the extracted model alone (e.g. how many generated worlds satisfy the
+                # hypotheses of the theorems): reported in the evidence, never a source of violations
+                if driver_ok:
+                    try:
+                        mo = vlib.run_model_only(suite, lines, pid)
+                        cov["suites"][spec.get("name", suite)] = {
+                            "cases": len(lines), "model_only": True,
+                            "satisfied": sum(1 for x in mo if spec["count"](x)),
+                            "distribution": spec.get("distribution", {})}
+                    except Broken as b:
+                        broken.append(b)
+                continue
             try:
                 if driver_ok and not spec.get("impl_only"):
                     impl, model = vlib.run_suite(suite, lines, pid)
